@@ -185,7 +185,7 @@ pub fn gen_tx(
     ext: &mut ExtState,
 ) -> Option<(String, Transaction)> {
     let base = *spec.params.base_asset_id();
-    let kind = ctx.tape.weighted(&[5, 3, 3, 2]);
+    let kind = ctx.tape.weighted(&[5, 3, 3, 2, 3]);
     match kind {
         // fan-out: one big coin into several outputs (dust, medium) for various recipients
         0 => {
@@ -295,6 +295,46 @@ pub fn gen_tx(
             }
             st.reserved_coins.insert(*utxo);
             Some((format!("predicate-spend p{pi}"), tx.into()))
+        }
+        // a script with data receipts and a variable output: LOGD, TRO (transfer out), RETD
+        4 => {
+            let (wi, utxo, coin) = pick_wallet_coin(ctx, spec, tables, st, Some(base), 10_000_000)?;
+            let amount = 1 + ctx.tape.choose(5_000) as u32;
+            let to = pick_recipient(ctx, spec, ext);
+            let with_tro = ctx.tape.chance(3, 4);
+            let n_instr: usize = if with_tro { 9 } else { 4 };
+            let padded = (n_instr * 4).div_ceil(8) * 8;
+            let mut v: Vec<Instruction> = vec![
+                op::movi(0x10, 8 + ctx.tape.choose(3) as u32 * 8),
+                op::logd(RegId::ZERO, RegId::ONE, RegId::IS, 0x10),
+            ];
+            if with_tro {
+                v.extend([
+                    op::addi(0x11, RegId::IS, padded as u16),
+                    op::addi(0x12, 0x11, 32),
+                    op::movi(0x13, amount),
+                    op::movi(0x14, 0),
+                    op::tro(0x12, 0x14, 0x13, 0x11),
+                ]);
+            }
+            v.push(op::movi(0x10, 16));
+            v.push(op::retd(RegId::IS, 0x10));
+            assert_eq!(v.len(), n_instr);
+            let script: Vec<u8> = v.into_iter().collect();
+            let mut data = Vec::new();
+            data.extend_from_slice(base.as_ref());
+            data.extend_from_slice(to.as_ref());
+            let mut b = TransactionBuilder::script(script, data);
+            b.with_params(spec.params.clone());
+            b.script_gas_limit(100_000);
+            b.max_fee_limit(coin.amount / 2);
+            b.add_unsigned_coin_input(spec.wallets[wi].secret, utxo, coin.amount, coin.asset, coin.tx_pointer);
+            if with_tro {
+                b.add_output(Output::variable(Address::zeroed(), 0, AssetId::zeroed()));
+            }
+            b.add_output(Output::change(spec.wallets[wi].address, 0, base));
+            st.reserved_coins.insert(utxo);
+            Some((format!("data-receipts w{wi} tro={with_tro}"), b.finalize_as_transaction()))
         }
         // pay to a predicate / fresh address with a fresh script
         _ => {
